@@ -335,31 +335,54 @@ func ruleR09a(c *Check) {
 				c.Require(bad == "", "R09a", key, "the slice filled from a map iteration is sorted before it is consumed", "a slice filled in map-iteration order is "+bad+": the result depends on map iteration order", c.P.InstrPos(call))
 			}
 		}
-		// (iv) deterministic marshalling
-		for _, s := range engine.SitesIn(fn) {
-			name := engine.CalleeName(s)
-			if !strings.HasSuffix(name, "proto.Marshal") && !strings.HasSuffix(name, "proto.MarshalOptions).Marshal") {
-				continue
-			}
-			v := s.Value()
-			if v == nil {
-				continue
-			}
-			hashed := back.Has(v)
-			for _, r := range *v.Referrers() {
-				if ex, ok := r.(*ssa.Extract); ok && back.Has(ex) {
-					hashed = true
-				}
-			}
-			if !hashed {
-				continue
-			}
-			ok := false
-			if strings.HasSuffix(name, "MarshalOptions).Marshal") {
-				ok = deterministicOptions(s.Common().Args[0])
-			}
-			c.Require(ok, "R09a", "deterministic-marshal/"+fname, "the hashed protobuf bytes come from MarshalOptions{Deterministic: true}", "protobuf bytes are hashed without deterministic marshalling (map fields would serialise in random order)", c.P.InstrPos(s))
+	}
+	// (iv) deterministic marshalling: every protobuf serialisation (in the output / hashing packages) whose
+	// bytes reach a hasher — in the same function or through returns and arguments — uses Deterministic: true
+	sinkVals := map[Node]bool{}
+	for _, s := range sinks {
+		sinkVals[s.Val] = true
+	}
+	inHashPkgs := func(e *engine.Edge) bool {
+		if e.Via == nil {
+			return true
 		}
+		f := e.Via.Parent()
+		return engine.InPackage(f, "hashing") || engine.InPackage(f, "output")
+	}
+	for _, s := range c.G.Sites {
+		fn := s.Parent()
+		if !(engine.InPackage(fn, "hashing") || engine.InPackage(fn, "output")) {
+			continue
+		}
+		name := engine.CalleeName(s)
+		if !strings.HasSuffix(name, "proto.Marshal") && !strings.HasSuffix(name, "proto.MarshalOptions).Marshal") {
+			continue
+		}
+		v := s.Value()
+		if v == nil {
+			continue
+		}
+		src := []Node{v}
+		for _, r := range *v.Referrers() {
+			if ex, ok := r.(*ssa.Extract); ok && ex.Index == 0 {
+				src = append(src, ex)
+			}
+		}
+		fwd := c.G.Forward(src, inHashPkgs)
+		hashed := false
+		for n := range sinkVals {
+			if fwd.Has(n) {
+				hashed = true
+			}
+		}
+		if !hashed {
+			continue
+		}
+		ok := false
+		if strings.HasSuffix(name, "MarshalOptions).Marshal") {
+			ok = deterministicOptions(s.Common().Args[0])
+		}
+		c.Require(ok, "R09a", "deterministic-marshal/"+c.P.FuncName(fn), "the hashed protobuf bytes come from MarshalOptions{Deterministic: true}", "protobuf bytes are hashed without deterministic marshalling (map fields would serialise in random order)", c.P.InstrPos(s))
 	}
 	// (v) Compact only on sorted data (anywhere in first-party code that feeds targets)
 	for _, s := range c.G.CallsTo("slices.Compact", "slices.CompactFunc") {
